@@ -53,7 +53,8 @@ CONSTANTS
     MaxCycles,          \* number of Serve/Shutdown cycles explored
     RecheckUnderLock,   \* BOOLEAN
     GuardedConn,        \* BOOLEAN
-    PerCycleWG          \* BOOLEAN
+    PerCycleWG,         \* BOOLEAN
+    SubscribeMayFail    \* BOOLEAN: explore the path on which Serve cannot subscribe and shuts itself down
 
 \* Script[p]: the groups producer p submits to, in program order (defined by the MC module)
 CONSTANT Script
@@ -72,7 +73,7 @@ VARIABLES
     pk,         \* [Producers -> index of the next submission]
     apc,        \* [ApiCallers -> "idle"|"checked"|"done"]
     sdpc,       \* Shutdown caller: "idle"|"nil"|"bcast"|"connclose"|"inch"|"wait"|"clear"|"stopped"|"returned"
-    svpc,       \* Serve caller: "idle"|"init"|"started"|"listen"|"wait"|"returned"
+    svpc,       \* Serve caller: "idle"|"init"|"started"|"subscribing"|"listen"|"failwait"|"wait"|"returned"
     nc,         \* "nil" | "set"
     closes,     \* how often the connection was closed
     cycle,      \* number of completed Serve calls
@@ -228,7 +229,8 @@ ApiUse0(a) ==
 \* Shutdown / close
 \* ---------------------------------------------------------------------------
 SdStep(from, to) == sdpc = from /\ sdpc' = to
-SdCas0 == /\ sdpc = "idle" /\ state = "started" /\ svpc = "listen"
+\* (the caller is a user goroutine, or the goroutine Serve starts when it could not subscribe)
+SdCas0 == /\ sdpc = "idle" /\ state = "started" /\ svpc \in {"subscribing", "listen", "failwait"}
          /\ state' = "stopping" /\ sdpc' = "nil"
          /\ UNCHANGED <<wq, rwork, wkq, nw, wpc, cur, idx, wg, ppc, pk, apc, svpc, nc, closes, cycle,
                         subm, strt, done, refused, lost, accepted, panicked, lateStart>>
@@ -264,10 +266,10 @@ SdStopped0 == /\ SdStep("stopped", "returned") /\ state' = "stopped"
 \* (cycle + old + the call in progress = number of Serve calls made so far)
 SvCas == /\ state = "stopped" /\ cycle + old + (IF svpc \in {"idle", "returned"} THEN 0 ELSE 1) < MaxCycles
          /\ \/ svpc = "idle"
-            \/ svpc \in {"returned", "listen", "wait"} /\ sdpc = "returned"
+            \/ svpc \in {"returned", "listen", "wait", "failwait"} /\ sdpc = "returned"
          /\ state' = "starting" /\ svpc' = "init"
          /\ sdpc' = "idle"
-         /\ old' = IF svpc \in {"listen", "wait"} THEN old + 1 ELSE old
+         /\ old' = IF svpc \in {"listen", "wait", "failwait"} THEN old + 1 ELSE old
          /\ UNCHANGED <<wq, rwork, wkq, nw, wpc, cur, idx, wg, ppc, pk, apc, nc, closes, cycle,
                         subm, strt, done, refused, lost, accepted, panicked, lateStart>>
 \* an overtaken Serve call returns (its workers are gone since the Shutdown of its cycle returned)
@@ -282,14 +284,23 @@ SvInit == /\ svpc = "init" /\ svpc' = "started"
           \* WaitGroup.Add on a WaitGroup that an overtaken Serve call is still waiting on may panic
           /\ panicked' \in (IF ~PerCycleWG /\ old > 0 THEN {panicked, TRUE} ELSE {panicked})
           /\ UNCHANGED <<state, wkq, nw, ppc, pk, apc, sdpc, closes, cycle, old, strt, done, refused, lost, accepted, lateStart>>
-SvStarted0 == /\ svpc = "started" /\ svpc' = "listen" /\ state' = "started"
+SvStarted0 == /\ svpc = "started" /\ svpc' = "subscribing" /\ state' = "started"
              /\ UNCHANGED <<wq, rwork, wkq, nw, wpc, cur, idx, wg, ppc, pk, apc, sdpc, nc, closes, cycle,
                             subm, strt, done, refused, lost, accepted, panicked, lateStart>>
+\* subscribe(): callbacks are accepted from SvStarted on, i.e. while the subscriptions are still being made
+SvSubscribed0 == /\ svpc = "subscribing" /\ svpc' = "listen"
+                 /\ UNCHANGED <<state, wq, rwork, wkq, nw, wpc, cur, idx, wg, ppc, pk, apc, sdpc, nc, closes, cycle,
+                                subm, strt, done, refused, lost, accepted, panicked, lateStart>>
+\* a subscription fails: Serve starts a goroutine that calls Shutdown (SdCas is then due), skips the
+\* listener and waits for the workers
+SvSubFail0 == /\ SubscribeMayFail /\ svpc = "subscribing" /\ svpc' = "failwait"
+              /\ UNCHANGED <<state, wq, rwork, wkq, nw, wpc, cur, idx, wg, ppc, pk, apc, sdpc, nc, closes, cycle,
+                             subm, strt, done, refused, lost, accepted, panicked, lateStart>>
 \* the in-channel was closed by close(): the listener loop ends, Serve waits for the workers
 SvListenEnd0 == /\ svpc = "listen" /\ sdpc \in {"wait", "clear", "stopped", "returned"} /\ svpc' = "wait"
                /\ UNCHANGED <<state, wq, rwork, wkq, nw, wpc, cur, idx, wg, ppc, pk, apc, sdpc, nc, closes, cycle,
                               subm, strt, done, refused, lost, accepted, panicked, lateStart>>
-SvReturn0 == /\ svpc = "wait" /\ wg = 0 /\ svpc' = "returned" /\ cycle' = cycle + 1
+SvReturn0 == /\ svpc \in {"wait", "failwait"} /\ wg = 0 /\ svpc' = "returned" /\ cycle' = cycle + 1
             /\ UNCHANGED <<state, wq, rwork, wkq, nw, wpc, cur, idx, wg, ppc, pk, apc, sdpc, nc, closes,
                            subm, strt, done, refused, lost, accepted, panicked, lateStart>>
 
@@ -313,13 +324,15 @@ SdStopped == SdStopped0 /\ UNCHANGED old
 SvStarted == SvStarted0 /\ UNCHANGED old
 SvListenEnd == SvListenEnd0 /\ UNCHANGED old
 SvReturn == SvReturn0 /\ UNCHANGED old
+SvSubscribed == SvSubscribed0 /\ UNCHANGED old
+SvSubFail == SvSubFail0 /\ UNCHANGED old
 
 Next ==
     \/ \E w \in Workers : WkLock(w) \/ WkReacquire(w) \/ WkRelock(w)
     \/ \E p \in Producers : RwCheck(p) \/ RwEnqueue(p) \/ RwSignal(p)
     \/ \E a \in ApiCallers : ApiCheck(a) \/ ApiUse(a)
     \/ SdCas \/ ClNil \/ ClBroadcast \/ ClConnClose \/ ClCloseInCh \/ SdWait \/ SdClear \/ SdStopped
-    \/ SvCas \/ SvInit \/ SvStarted \/ SvListenEnd \/ SvReturn \/ OldServeReturn
+    \/ SvCas \/ SvInit \/ SvStarted \/ SvSubscribed \/ SvSubFail \/ SvListenEnd \/ SvReturn \/ OldServeReturn
 
 \* everything that can happen has happened (used to tell a hang from termination)
 Finished ==
@@ -336,7 +349,8 @@ FairSpec == Spec
             /\ \A p \in Producers : WF_vars(RwCheck(p) \/ RwEnqueue(p) \/ RwSignal(p))
             /\ \A a \in ApiCallers : WF_vars(ApiCheck(a) \/ ApiUse(a))
             /\ WF_vars(ClNil \/ ClBroadcast \/ ClConnClose \/ ClCloseInCh \/ SdWait \/ SdClear \/ SdStopped)
-            /\ WF_vars(SvInit \/ SvStarted \/ SvListenEnd \/ SvReturn \/ OldServeReturn)
+            /\ WF_vars(SvInit \/ SvStarted \/ SvSubscribed \/ SvListenEnd \/ SvReturn \/ OldServeReturn)
+            /\ WF_vars(SdCas /\ svpc = "failwait")     \* the Shutdown goroutine started by a Serve that could not subscribe
 
 \* ===========================================================================
 \* Properties
@@ -370,6 +384,8 @@ Accounted ==
 \* liveness (FairSpec): Shutdown returns, Serve returns, accepted callbacks run unless Shutdown began
 ShutdownReturns == (sdpc = "nil") ~> (sdpc = "returned")
 ServeReturns == (sdpc = "nil") ~> (svpc = "returned")
+\* a Serve call that could not subscribe shuts the service down by itself and returns
+FailedServeReturns == (svpc = "failwait") ~> (svpc = "returned" /\ state = "stopped")
 AcceptedRuns == \A p \in Producers : \A k \in 1..Len(Script[p]) :
                    (<<p, k>> \in lost) ~> (<<p, k>> \in done \/ sdpc # "idle")
 
